@@ -73,7 +73,13 @@ def _step(draw):
     else:
         ang = draw(st.floats(np.pi / 2, np.pi))
     hmag = 10.0 ** draw(st.floats(-3, 1))
-    return dict(part="step", method=name, zmag=zmag, ang=ang, kind=kind, h=hmag * draw(st.sampled_from([1.0, -1.0])),
+    # tiny states / slow rates with long steps (|h lambda| = O(1) while |lambda| |y| is at rounding level): the tolerances scale
+    # with the state, so the stage equations still have to be solved relative to it
+    yscale = draw(st.sampled_from([1.0, 1.0, 1.0, 1e-6, 1e-12, 1e-20]))
+    if yscale != 1.0 and draw(st.booleans()):
+        hmag = 10.0 ** draw(st.floats(1, 4))
+        zmag = 10.0 ** draw(st.floats(-1, 1.5))
+    return dict(part="step", method=name, zmag=zmag, ang=ang, kind=kind, h=hmag * draw(st.sampled_from([1.0, -1.0])), yscale=yscale,
                 tol=draw(st.sampled_from([1e-6, 1e-9, 1e-12])), user_jac=draw(st.booleans()),
                 y0=[draw(st.sampled_from([1.0, -0.5, 2.0, 1e-3])), draw(st.sampled_from([0.0, 1.0, -2.0]))],
                 # the judged step continues, on the same integrator object, a step taken with lambda x warm (the constant of
@@ -148,13 +154,14 @@ def _check_step(case):
     if h < 0:
         lam = -lam   # Re(lambda h) <= 0 with a negative step
     tol = case["tol"]
+    ysc = case.get("yscale", 1.0)
     labels = ["step:" + name, "kind:" + case["kind"], "h<0" if h < 0 else "h>0", "jac:user" if case["user_jac"] else "jac:fd"]
     if case["kind"] == "real":
         Amat = np.array([[lam.real]])
-        y0 = np.array([case["y0"][0]], dtype=np.float64)
+        y0 = np.array([case["y0"][0]], dtype=np.float64) * ysc
     else:
         Amat = np.array([[lam.real, -lam.imag], [lam.imag, lam.real]])
-        y0 = np.array(case["y0"], dtype=np.float64)
+        y0 = np.array(case["y0"], dtype=np.float64) * ysc
 
     class F(object):
         def __call__(self, t, y, k=1.0, **kw):
@@ -163,7 +170,7 @@ def _check_step(case):
     if case["user_jac"]:
         f.jac = lambda t, y, k=1.0, **kw: k * Amat
     rhs = DiffRHS(f)
-    integ = M.get(name)(sys_dim=y0.shape, dtype=np.float64, rtol=tol, atol=tol)
+    integ = M.get(name)(sys_dim=y0.shape, dtype=np.float64, rtol=tol, atol=tol * ysc)
     t_start = np.float64(0.0)
     consts = {"k": 1.0}
     if case.get("warm") is not None and abs(case["zmag"] * case["warm"]) <= 1e4:
@@ -176,7 +183,7 @@ def _check_step(case):
         except Exception as e:
             if exc_origin(e)[0] == "harness":
                 raise
-            integ = M.get(name)(sys_dim=y0.shape, dtype=np.float64, rtol=tol, atol=tol)      # warm-up failed: judge a cold step
+            integ = M.get(name)(sys_dim=y0.shape, dtype=np.float64, rtol=tol, atol=tol * ysc)      # warm-up failed: judge a cold step
         if case.get("inplace"):
             consts["k"] = 1.0
         else:
@@ -198,8 +205,8 @@ def _check_step(case):
     c, A, B = M.tableau(name)
     z = lam * dT
     attrs = dict(method=name)
-    newton_tol = 0.5 * (tol + tol * float(np.max(np.abs(y0))))
-    slackabs = 10 * newton_tol * max(1.0, abs(dT)) + 1e-9
+    newton_tol = 0.5 * (tol * ysc + tol * float(np.max(np.abs(y0))))
+    slackabs = 10 * newton_tol * max(1.0, abs(dT)) + 1e-9 * max(ysc, n0 if ysc != 1.0 else 1.0)
     if not n1 <= n0 * (1 + 1e-8) + slackabs:
         viols.append(V("growth", "{}: an accepted step on y' = lambda y with Re(lambda h) <= 0 increased |y| from {:.6e} to {:.6e} (lambda = {!r}, dT = {}, tol = {})".format(
             name, n0, n1, lam, dT, tol), name, **attrs))
